@@ -465,6 +465,25 @@ Check C17_there_and_back_float_temperature : forall ua ub ta fa tb fb v,
   fval r4 /\
   (Rabs (RV r4 - RV v) <= 200 * (u64 * (9 * (Rabs (RV v) + 1000)) + eta64))%R.
 Print Assumptions C17_there_and_back_float_temperature.
+(* COMPOSITION for the temperature kind over the table: A -> B -> C and A -> C are both within their error
+   recurrences of the same exact value (fromK_B then toK_B cancel over the reals), so they differ by at most
+   400 * (2^-53 * 9 * (|v| + 1000) + 2^-1075) *)
+Theorem C17_composition_float_temperature : forall ua ub uc ta fa tb fb tc fc v,
+  In ua all_units -> In ub all_units -> In uc all_units ->
+  u_conv ua = Temperature ta fa -> u_conv ub = Temperature tb fb -> u_conv uc = Temperature tc fc ->
+  fval v -> (Rabs (RV v) <= bpow radix2 1000)%R ->
+  let direct := through_base fl v ua uc in
+  let via := through_base fl (through_base fl v ua ub) ub uc in
+  (Rabs (RV via - RV direct) <= 400 * (u64 * (9 * (Rabs (RV v) + 1000)) + eta64))%R.
+Proof. exact composition_float_temperature_table. Qed.
+Check C17_composition_float_temperature : forall ua ub uc ta fa tb fb tc fc v,
+  In ua all_units -> In ub all_units -> In uc all_units ->
+  u_conv ua = Temperature ta fa -> u_conv ub = Temperature tb fb -> u_conv uc = Temperature tc fc ->
+  fval v -> (Rabs (RV v) <= bpow radix2 1000)%R ->
+  let direct := through_base fl v ua uc in
+  let via := through_base fl (through_base fl v ua ub) ub uc in
+  (Rabs (RV via - RV direct) <= 400 * (u64 * (9 * (Rabs (RV v) + 1000)) + eta64))%R.
+Print Assumptions C17_composition_float_temperature.
 Example C17_temperature_units_nonempty : temperature_units <> [].
 Proof. vm_compute. discriminate. Qed.
 (* the reciprocal units of the table as it is (regenerated): the theorem's new scope *)
